@@ -123,6 +123,7 @@ def parseObs (line : String) : Option Obs :=
   | "F" :: _ :: "queue" :: q :: n :: _ => some (.fqueue (natOf q) (intOf n))
   | "X" :: _ :: "crash" :: m => some (.crash (" ".intercalate m))
   | "X" :: _ :: "abort" :: _ => none
+  | "T" :: _ :: "qtick" :: _ => some .qtick
   | "T" :: _ => some .tick
   | "A" :: g :: a :: op :: arg :: res => some (.adapter (natOf g) (natOf a) op arg res)
   | "X" :: _ :: "recover" :: _ => some .recover
